@@ -99,6 +99,10 @@ func (s *Sim) checkStore(after string) {
 				}
 			}
 			if deep {
+				if u.GetUnchecked(h, id) != ptr || !u.HasUnchecked(h, id) {
+					s.violate("C14", "api.equiv", "Unsafe.GetUnchecked", false, "Unsafe.GetUnchecked/HasUnchecked differ from Get/Has for entity label %d T%02d", l, tp)
+					return
+				}
 				m := s.mapper(tp)
 				p := m.Get(h)
 				s.C.Checks["api.pointers"]++
@@ -153,6 +157,15 @@ func (s *Sim) checkMappers() {
 				return
 			}
 		}
+		// the unchecked variants are equivalent for alive entities
+		s.count(fmt.Sprintf("Map%d.GetUnchecked", len(tuple)))
+		up := m.GetUnchecked(e.H)
+		for i := range tuple {
+			if up[i] != ptrs[i] {
+				s.violate("C14", "api.pointers", fmt.Sprintf("Map%d.GetUnchecked", len(tuple)), false, "Map%d.GetUnchecked pointer %d = %x, Get = %x for entity label %d", len(tuple), i, ptrOf(up[i]), ptrOf(ptrs[i]), e.Label)
+				return
+			}
+		}
 		if m.HasAll(e.H) != all {
 			s.violate("C14", "api.equiv", fmt.Sprintf("Map%d.HasAll", len(tuple)), false, "Map%d.HasAll = %v for entity label %d with components %v (tuple %v)", len(tuple), !all, e.Label, e.Types(), tuple)
 			return
@@ -160,6 +173,10 @@ func (s *Sim) checkMappers() {
 		for i, tp := range tuple {
 			if U[tp].IsRel && e.Has(tp) {
 				s.count(fmt.Sprintf("Map%d.GetRelation", len(tuple)))
+				if got, want := m.GetRelationUnchecked(e.H, i), u.GetRelationUnchecked(e.H, s.ids[tp]); got != want {
+					s.violate("C14", "api.relidx", fmt.Sprintf("Map%d.GetRelationUnchecked", len(tuple)), false, "Map%d.GetRelationUnchecked(e, %d) = %v, Unsafe.GetRelationUnchecked(T%02d) = %v", len(tuple), i, got, tp, want)
+					return
+				}
 				if got, want := m.GetRelation(e.H, i), u.GetRelation(e.H, s.ids[tp]); got != want {
 					s.violate("C14", "api.relidx", fmt.Sprintf("Map%d.GetRelation", len(tuple)), false, "Map%d.GetRelation(e, %d) = %v, Unsafe.GetRelation(T%02d) = %v", len(tuple), i, got, tp, want)
 					return
